@@ -93,6 +93,8 @@ def shard(ctx):
             kind, text = 'tokensoup', hostile.token_soup(rng)
         elif x < 0.5:
             kind, text = 'blocksoup', hostile.block_soup(rng)
+        elif x < 0.54:
+            kind, text = 'chainsoup', hostile.chain_soup(rng)
         elif x < 0.62:
             kind, text = 'charsoup', hostile.char_soup(rng)
         elif x < 0.72:
